@@ -180,11 +180,11 @@ theorem exchangeCall_spec (cfg : Cfg) (w : World) (cur : Cursor) (req : Req) :
     | none => exact ⟨rfl, Or.inl ⟨_, rfl, rfl⟩⟩
     | some di =>
       simp only []
-      cases hp : extPreflight cfg c (req.env.ticks.headD {}).predicted 0 with
+      cases hp : extPreflight cfg c (req.env.ticks.headD {}) 0 with
       | true => exact ⟨rfl, Or.inl ⟨_, rfl, rfl⟩⟩
       | false =>
         simp only [Bool.false_eq_true, if_false]
-        cases hb : enforceBudgets cfg req.env.wire (req.env.ticks.headD {}).extBytes with
+        cases hb : enforceBudgets cfg req.env.wire (chargedExt cfg c (req.env.ticks.headD {})) with
         | some e2 => exact ⟨rfl, Or.inl ⟨_, rfl, rfl⟩⟩
         | none =>
           refine ⟨rfl, Or.inr ?_⟩
@@ -233,16 +233,16 @@ theorem exc_litOnly (e : Err) : ∀ b ∈ [RBatch.exc e], LitOnly (rbMeta b) := 
 loop reports an error, and then the stream is not finished. Events: the first `Produce` sees the
 metadata handed in, every later one sees none. -/
 theorem produceLoop_spec (cfg : Cfg) : ∀ (ticks : List Tick) (pos : Nat) (first : Option Meta)
-    (nData ext : Nat) (envs : List TickEnv),
-    (∀ b ∈ (produceLoop cfg ticks pos first nData ext envs).out, LitOnly (rbMeta b)) ∧
-    ((∃ e, RBatch.exc e ∈ (produceLoop cfg ticks pos first nData ext envs).out) →
-        (produceLoop cfg ticks pos first nData ext envs).err.isSome = true) ∧
-    ((produceLoop cfg ticks pos first nData ext envs).err.isSome = true →
-        (produceLoop cfg ticks pos first nData ext envs).finished = false) ∧
-    (∃ tail, (produceLoop cfg ticks pos first nData ext envs).events
+    (nData ext : Nat) (envs : List TickEnv) (body : Nat) (sizes : List Nat),
+    (∀ b ∈ (produceLoop cfg ticks pos first nData ext envs body sizes).out, LitOnly (rbMeta b)) ∧
+    ((∃ e, RBatch.exc e ∈ (produceLoop cfg ticks pos first nData ext envs body sizes).out) →
+        (produceLoop cfg ticks pos first nData ext envs body sizes).err.isSome = true) ∧
+    ((produceLoop cfg ticks pos first nData ext envs body sizes).err.isSome = true →
+        (produceLoop cfg ticks pos first nData ext envs body sizes).finished = false) ∧
+    (∃ tail, (produceLoop cfg ticks pos first nData ext envs body sizes).events
         = Event.produce pos (first.getD []) :: tail ∧ ∀ ev ∈ tail, ∃ p, ev = Event.produce p []) := by
-  intro ticks pos first nData ext envs
-  fun_induction produceLoop cfg ticks pos first nData ext envs with
+  intro ticks pos first nData ext envs body sizes
+  fun_induction produceLoop cfg ticks pos first nData ext envs body sizes with
   | case1 =>
     exact ⟨(by intro b hb; cases hb), (by rintro ⟨e, he⟩; cases he), (by intro h; cases h), [], rfl,
       (by intro ev h; cases h)⟩
@@ -255,7 +255,10 @@ theorem produceLoop_spec (cfg : Cfg) : ∀ (ticks : List Tick) (pos : Nat) (firs
   | case6 =>
     exact ⟨flushed_lit _, (by rintro ⟨e, he⟩; exact absurd he (flushed_noexc _ e)), (by intro h; cases h), [], rfl,
       (by intro ev h; cases h)⟩
-  | case7 t rest pos first nData ext envs ev te c hr h1 h2 flushed nData' h3 h4 r ih =>
+  | case7 =>
+    exact ⟨flushed_lit _, (by rintro ⟨e, he⟩; exact absurd he (flushed_noexc _ e)), (by intro h; cases h), [], rfl,
+      (by intro ev h; cases h)⟩
+  | case8 t rest pos first nData ext envs body sizes ev te c hr h1 h2 flushed nData' body' up h3 h4 h5 r ih =>
     obtain ⟨i1, i2, i3, tail, i4, i5⟩ := ih
     refine ⟨?_, ?_, i3, r.events, rfl, ?_⟩
     · intro b hb
